@@ -69,10 +69,12 @@ def _startup(ctx, master, rule='C09.1'):
         txt = N.txt(expr)
         return '.apps' in txt and 'backend' not in txt
 
+    cycle = _cycle_result(func)
+
     def is_changed(expr):
         if isinstance(expr, (ast.SetComp, ast.ListComp, ast.GeneratorExp)):
             gen = expr.generators[0]
-            return N.txt(gen.iter) == 'placement' and len(gen.ifs) == 1
+            return N.txt(gen.iter) in cycle and len(gen.ifs) == 1
         return False
     sx = K.FlowSetExpr(func, graph, {'stored': is_stored, 'model': is_model,
                                      'changed': is_changed})
@@ -167,6 +169,18 @@ def _is_members(func):
     return recog
 
 
+def _cycle_result(func):
+    """Locals bound to the result of this cycle (self.cell.schedule())."""
+    out = set()
+    for sub in K.walk_no_nested(func.node):
+        if isinstance(sub, ast.Assign) and len(sub.targets) == 1 and \
+                isinstance(sub.targets[0], ast.Name) and \
+                isinstance(sub.value, ast.Call) and \
+                K.callee_text(sub.value).endswith('cell.schedule'):
+            out.add(sub.targets[0].id)
+    return out or {'placement'}
+
+
 def _change_filter(ctx, func, comp, rule):
     nz = N.Normaliser()
     cond = comp.generators[0].ifs[0]
@@ -205,8 +219,8 @@ def _changed_list(ctx, func, name, rule, what):
         return bad('%s is not built by one pass over the result' % name)
     part = parts[0]
     doms = part['domains']
-    if len(doms) != 1 or N.txt(doms[0][1]) != 'placement':
-        return bad('%s does not range over `placement`' % name)
+    if len(doms) != 1 or N.txt(doms[0][1]) not in _cycle_result(func):
+        return bad('%s does not range over the result of this cycle' % name)
     target = doms[0][0]
     names, whole = None, set()
     if isinstance(target, ast.Tuple) and len(target.elts) == 5:
@@ -277,7 +291,15 @@ def _payload(ctx, master):
                "record key %r is read from the model's instance: %s" % (
                    key, have[0]), construct='record key %s' % key)
     cnt = written.get('identity_count', (None, None))
-    cdefs = defs.get('identity_count', [])
+    # the value stored under the key, through the local(s) it is kept in
+    cval = None
+    for sub in K.walk_no_nested(pdata.node):
+        if isinstance(sub, ast.Return) and isinstance(sub.value, ast.Dict):
+            for key, val in zip(sub.value.keys, sub.value.values):
+                if getattr(key, 'value', None) == 'identity_count':
+                    cval = val
+    cdefs = M.leaf_defs(defs, cval.id) if isinstance(cval, ast.Name) \
+        else ([cval] if cval is not None else [])
     ok = cnt[0] is not None and any(
         K.rtxt(pdata, v).endswith('identity_group_ref.count')
         for v in cdefs)
@@ -289,12 +311,14 @@ def _payload(ctx, master):
     rp = loader.methods.get('restore_placement')
     ctx.require(rp is not None, 'Loader.restore_placement')
     read = set()
+    from . import c11
+    recs = c11._roles(rp)['record']     # the stored record, by definition
     for sub in K.walk_no_nested(rp.node):
         if isinstance(sub, ast.Call) and K.is_meth(sub, 'get') and \
-                K.recv_text(sub) == 'data' and sub.args and \
+                K.recv_text(sub) in recs and sub.args and \
                 isinstance(sub.args[0], ast.Constant):
             read.add(sub.args[0].value)
-        if isinstance(sub, ast.Subscript) and N.txt(sub.value) == 'data' \
+        if isinstance(sub, ast.Subscript) and N.txt(sub.value) in recs \
                 and isinstance(sub.slice, ast.Constant) and \
                 isinstance(sub.ctx, ast.Load):
             read.add(sub.slice.value)
@@ -403,8 +427,8 @@ def _reschedule(ctx, master):
     for dom, opsof in sorted(domains.items()):
         _changed_list(ctx, func, dom, 'C09.3',
                       '%s loop domain' % '/'.join(sorted(set(opsof))))
-    src = ast.unparse(func.node)
-    ctx.ob('C09.3', func, None, 'placement = self.cell.schedule()' in src,
+    ctx.ob('C09.3', func, None, _cycle_result(func) != {'placement'} or
+           'placement = self.cell.schedule()' in ast.unparse(func.node),
            'the change list is the result of this cycle',
            construct='placement = self.cell.schedule()')
 
@@ -601,16 +625,26 @@ def _removal(ctx, master):
         graph, lambda c: K.is_meth(c, 'remove_app') and
         'super' in N.txt(c.func))]
     ctx.require(sups, 'super().remove_app in Master.remove_app')
+    # the model's instance, whatever the local is called
+    model = 'self.cell.apps[%s]' % func.params()[1]
+    enz = N.Normaliser(env=K.func_env(func))
+
+    def unplaced(edge):
+        return any(a.key[0] == 'truth' and not a.key[2] and
+                   a.key[1] == '%s.server' % model
+                   for a in enz.facts_of_edge(edge))
     for node in sups:
         ok = bool(dels) and K.guarded_by(
-            graph, node, lambda e: e.src in dels or K.truth_edge(
-                nz, e, 'app.server', False))
+            graph, node, lambda e: e.src in dels or unplaced(e))
         ctx.ob('C09.5', func, node, ok,
                'the record is deleted (when placed) before the instance is '
                'forgotten')
     for node, op, rec, _c in ops:
         if op == 'delete':
-            ctx.ob('C09.5', func, node, rec[0] == 'app.server',
+            ctx.ob('C09.5', func, node, rec[0] == 'app.server' or
+                   K.rtxt(func, _c.args[0].args[0] if isinstance(
+                       _c.args[0], ast.Call) and _c.args[0].args
+                       else _c.args[0]) == '%s.server' % model,
                    'the record deleted is the one under the current server',
                    construct='delete path server = app.server')
     # single funnel
